@@ -44,7 +44,7 @@ CHECKS.update({
    text="Interval arithmetic is transliterated branch for branch (all sign cases, zero and infinite endpoints); floor/ceiling endpoint roundings are instances of the normalize theorems; the model is tied by correspondence and containment of exact results is decided exactly for member points of every generated interval, including endpoints longer than the precision and string/number conversions. Theorems in Props/C14.v: for finite canonical endpoints of any length and every pair of member reals, x+y, x-y, -x, +x, x*y (all nine sign cases incl. the min/max of exact corner products), x*x, |x|, x/y (denominator interval not containing 0), sqrt x, x^n (n > 0, all sign/parity cases, built on the directed mpf_pow_int theorems of C03) and 1/x^n (when the enclosure of x^n excludes zero) lie in the computed interval, which is again a valid interval. exp, log, cos, sin, tan, cot, cosh/sinh and the general power exp(t ln s) on intervals: the point functions mpf_exp/mpf_log/mpf_cos_sin/mod_pi2 are not modelled, their values at the end points (recorded from the live call) are inputs of the model functions mpi_exp_from, mpi_log_from, mpi_cos_sin_from, mpi_tan_from, mpi_cot_from, mpi_cosh_sinh_from, mpi_pow_from, which are in correspondence with the live mpi_* functions; the theorems prove containment of exp x, ln x, cos x, sin x, tan x, cos x/sin x, cosh x, sinh x, x^y for every member point under the hypotheses `close` (each point value within a relative 2^(9-wp) of the exact one) and `quad` (the quadrant index is right) - including the whole extremum logic of mpi_cos_sin (quasi-convexity of cos on a period, proved from the standard library's monotonicity lemmas), the min/max selection, the outward factor and the clamp to [-1, 1]; both hypotheses are monitored on every sampled call against a (wp+120)-bit evaluation and a failure is reported as a violation with the input. Independently, elementary functions on intervals are decided per sampled interval by universally quantified Coq Interval certificates (props/c14e.py, exploration level for that part).",
    note=TB_A + " Infinite endpoints, division by intervals containing zero: correspondence + exact oracle (no theorem). Elementary part: Coq Interval certificates per instance (" + "Interval/Coquelicot axioms as for engine B). Gamma family on intervals not decided."),
  "C15": dict(level="proof", engine="A", technique="Coq/Flocq theorems (Props/C15.v): mpci add/sub/neg/pos/mul/square/div/pow_int (n>0) contain every exact complex result for all member points; Gallina model of mpci add/sub/mul/div/square/pow_int in correspondence; containment decided exactly at 16x9 member points per case; point-wise Interval certificates for abs/exp/log/cos/sin on rectangles",
-   text="Complex interval arithmetic is a composition of the real interval model: theorems in Props/C15.v prove, for finite rectangles, every precision and every member point a+bi, c+di, that the sum, difference, negation, product (ac-bd, ad+bc), square, quotient (when the enclosure of |w|^2 excludes zero) and positive integer powers (loop invariant by induction on the exponent bits) lie in the computed rectangle (compositions of the C14 containment theorems with exact inner products). The model is tied by correspondence; division and powers are decided exactly at member points. mpci_abs contains |z| (theorem without any hypothesis on point functions: exact squares, a sum rounded down that stays non-negative, the square-root theorem); mpci_exp, mpci_cos, mpci_sin contain exp a cos b + i exp a sin b, cos a cosh b - i sin a sinh b, sin a cosh b + i cos a sinh b for every member point, by composition of the C14 theorems under the same monitored hypotheses on the recorded point values (models mpci_exp_from, mpci_cos_from, mpci_sin_from in correspondence with the live functions). The argument of a rectangle (mpi_atan2, hence mpci_arg and the imaginary part of mpci_log): mpf_atan2 is not modelled; the model mpi_atan2_plan says at which two corners it is evaluated and is compared with the arguments of the live calls; theorems: in each open half-plane the angle of every member point lies between the angles at the chosen corners, and rectangles on the real axis or meeting the branch cut get [0,0], [pi,pi], [0,pi] or [-pi,pi] (the last two since fix a833e27, a defect found by this correspondence). Independently abs/exp/log/cos/sin on rectangles are decided point-wise by Coq Interval certificates (a necessary condition only; exploration level for that part).",
+   text="Complex interval arithmetic is a composition of the real interval model: theorems in Props/C15.v prove, for finite rectangles, every precision and every member point a+bi, c+di, that the sum, difference, negation, product (ac-bd, ad+bc), square, quotient (when the enclosure of |w|^2 excludes zero) and positive integer powers (loop invariant by induction on the exponent bits) lie in the computed rectangle (compositions of the C14 containment theorems with exact inner products). The model is tied by correspondence; division and powers are decided exactly at member points. mpci_abs contains |z| (theorem without any hypothesis on point functions: exact squares, a sum rounded down that stays non-negative, the square-root theorem); mpci_exp, mpci_cos, mpci_sin contain exp a cos b + i exp a sin b, cos a cosh b - i sin a sinh b, sin a cosh b + i cos a sinh b for every member point, by composition of the C14 theorems under the same monitored hypotheses on the recorded point values (models mpci_exp_from, mpci_cos_from, mpci_sin_from in correspondence with the live functions). The argument of a rectangle (mpi_atan2, hence mpci_arg and the imaginary part of mpci_log): mpf_atan2 is not modelled; the model mpi_atan2_plan says at which two corners it is evaluated and is compared with the arguments of the live calls; theorems: in each open half-plane the angle of every member point lies between the angles at the chosen corners, and rectangles on the real axis or meeting the branch cut get [0,0], [pi,pi], [0,pi] or [-pi,pi] (the last two since fix a833e27, a defect found by this correspondence). At API level, mixed operands in both orders (Python complex/int/float and iv.mpf against iv.mpc/iv.mpf for -, / and **) and integer-interval exponents z ** [m, n] are compared with exact Gaussian-rational values. Independently abs/exp/log/cos/sin on rectangles are decided point-wise by Coq Interval certificates (a necessary condition only; exploration level for that part).",
    note=TB_A + " Negative powers and complex exponents: correspondence + exact oracle (no theorem). Elementary part: per-point Interval certificates. Gamma family on rectangles: necessary condition at integer member points only."),
  "C16": dict(level="proof", engine="A", technique="Coq theorems (Props/C16.v): three-valued interval comparisons are exactly the for-all / for-none statements over member reals; Gallina model of mpi_lt/le/gt/ge/eq in correspondence; three-valued semantics decided exactly from endpoints",
    text="The three-valued comparison functions are transliterated; since an interval relation holds for all/no member pairs iff it holds for the corresponding endpoints, each case is decided exactly; `in`, == and != at API level on touching, nested, infinite and point intervals. Theorems in Props/C16.v prove for finite endpoints that True means the relation holds for every pair of members, False for none, None otherwise.",
@@ -119,7 +119,7 @@ CHECKS.update({
 
 CHECKS.update({
  "C25": dict(level="proof", engine="A", technique="Coq theorem: the memoised factorial returns n! for every call history (induction over call lists); tables read from the live integer functions compared by Coq vm_compute with definitional references on exhaustive ranges; exact-or-one-ulp instances decided in Z",
-   text="libintmath.ifac's growing cache (with its size limit) is modelled as a state machine and proved to return n! after any sequence of calls. ifac2, ifib, stirling1/2, binomial, bell, eulernum, bernfrac, moebius, isprime, list_primes, primepi are read from the live code (after scrambled warm-up calls) and compared inside Coq with reference definitions (recurrences, trial division) exhaustively on stated ranges; strong pseudoprimes carry Coq-checked factor certificates; factorial/fac2/fib/binomial/stirling/rf at arguments exceeding the precision are decided exact-when-representable and within one ulp otherwise. ifib (Dijkstra's logarithmic iteration with its cache of the values below 250) and ifac2 (one memo dictionary per parity, cache limit) are modelled as algorithms and proved to return F(n) (with F(-n) = (-1)^(n+1) F(n)) and n!! for every argument and every sequence of calls (ifib_history, ifac2_history; the ifac2 invariant includes that the keys of one parity are stored contiguously); the models are run inside Coq on the same call sequences as the live routines.",
+   text="libintmath.ifac's growing cache (with its size limit) is modelled as a state machine and proved to return n! after any sequence of calls. ifac2, ifib, stirling1/2, binomial, bell, eulernum, bernfrac, moebius, isprime, list_primes, primepi are read from the live code (after scrambled warm-up calls) and compared inside Coq with reference definitions (recurrences, trial division) exhaustively on stated ranges; strong pseudoprimes carry Coq-checked factor certificates; factorial/fac2/fib/binomial/stirling/rf at arguments exceeding the precision are decided exact-when-representable and within one ulp otherwise. ifib (Dijkstra's logarithmic iteration with its cache of the values below 250) and ifac2 (one memo dictionary per parity, cache limit) are modelled as algorithms and proved to return F(n) (with F(-n) = (-1)^(n+1) F(n)) and n!! for every argument and every sequence of calls (ifib_history, ifac2_history; the ifac2 invariant includes that the keys of one parity are stored contiguously); the models are run inside Coq on the same call sequences as the live routines. The public fib is also checked at negative arguments (F(-n) = (-1)^(n+1) F(n)), and the call sequences contain repeated negative arguments and descending arguments beyond the factorial cache limit.",
    note=TB_Z + " Ranges are bounded and stated in the evidence; Miller-Rabin determinism below 3.4e14 is a literature fact, not proved; bernoulli numerics, mangoldt, cyclotomic, bernpoly/eulerpoly not decided."),
 })
 
